@@ -160,6 +160,7 @@ class Extractor(object):
 
     def _assign_value(self, target, value, paths):
         """assign (possibly forking on a conditional expression)"""
+        value = _bool_select(value)
         if isinstance(value, ast.IfExp):
             t, f = self._cond(value.test, paths)
             return self._assign_value(target, value.body, t) + self._assign_value(target, value.orelse, f)
@@ -225,7 +226,8 @@ class Extractor(object):
             t, f = self._cond(st.test, paths)
             return self._block(st.body, t, done) + self._block(st.orelse, f, done)
         if isinstance(st, ast.Return):
-            if st.value is not None and isinstance(st.value, ast.IfExp):
+            if st.value is not None and isinstance(_bool_select(st.value), ast.IfExp):
+                st = ast.copy_location(ast.Return(value=_bool_select(st.value)), st)
                 t, f = self._cond(st.value.test, paths)
                 for grp, val in ((t, st.value.body), (f, st.value.orelse)):
                     for p in grp:
@@ -415,6 +417,17 @@ class _Scenario(ast.NodeTransformer):
             if k in self.mapping:
                 return ast.copy_location(ast.Constant(value=self.mapping[k]), node)
         return self.generic_visit(node)
+
+
+def _bool_select(value):
+    """`(a, b)[test]` with a boolean-valued test (comparison, not, and/or, a predicate call is_*()/bool()) selects like `b if test else a`: read it as that conditional expression"""
+    if isinstance(value, ast.Subscript) and isinstance(value.value, (ast.Tuple, ast.List)) and len(value.value.elts) == 2:
+        t = value.slice
+        boolean = isinstance(t, (ast.Compare, ast.BoolOp)) or (isinstance(t, ast.UnaryOp) and isinstance(t.op, ast.Not)) or (
+            isinstance(t, ast.Call) and ((isinstance(t.func, ast.Attribute) and t.func.attr.startswith("is_")) or (isinstance(t.func, ast.Name) and t.func.id == "bool")))
+        if boolean:
+            return ast.copy_location(ast.IfExp(test=t, body=value.value.elts[1], orelse=value.value.elts[0]), value)
+    return value
 
 
 def eval_atom(src, mapping, default=AnalysisError):
